@@ -16,13 +16,27 @@ Grid == IF Thorough THEN Shapes(3, 3) \cup Shapes(5, 2)
 GridSeq == SetToSeq(Grid)
 Lrs == <<Q(1, 100), Zero, Q(-1, 2), Two, Q(1, 3)>>
 Descs == MyCases(Flatten2([i \in DOMAIN GridSeq |->
-            [l \in DOMAIN Lrs |-> <<"ok", GridSeq[i], Lrs[l], l = 1>>] \o << <<"nograd", GridSeq[i], Half, FALSE>>, <<"two", GridSeq[i], Q(1, 4), FALSE>>, <<"again", GridSeq[i], Q(1, 4), FALSE>> >>]))
+            [l \in DOMAIN Lrs |-> <<"ok", GridSeq[i], Lrs[l], l = 1>>] \o << <<"nograd", GridSeq[i], Half, FALSE>>, <<"two", GridSeq[i], Q(1, 4), FALSE>>, <<"again", GridSeq[i], Q(1, 4), FALSE>>,
+               <<"slot", GridSeq[i], Q(1, 4), FALSE>>, <<"nograd", GridSeq[i], Zero, FALSE>> >>]))
 
 Build(d) ==
   LET inputs == <<In("w", d[2], TRUE), In("c", d[2], FALSE), In("u", d[2], d[1] = "ok")>>
       code == <<Ins("mul", NoPar, <<1, 2>>)>>
       base == MkCase("c17", "sgd", inputs, <<"any,any,any,any,t0", "any,wide,t0,huge,tiny250", "any">>, code, <<4>>, 4, FALSE)      \* last profile: w = 0 and a gradient below the library's equality tolerance everywhere     \* t0: a gradient that is exactly zero everywhere
-  IN IF d[1] = "again"
+  IN IF d[1] = "slot"
+     THEN (* one optimizer object, ONE pointer variable: it first holds w, is then re-bound to a tensor of another shape and updated again *)
+          LET other == IF d[2] = <<3>> THEN <<2, 2>> ELSE <<3>>
+              in4 == <<In("w", d[2], TRUE), In("v", other, TRUE), In("c", d[2], FALSE), In("e", other, FALSE)>>
+              code4 == <<Ins("mul", NoPar, <<1, 3>>), Ins("mul", NoPar, <<2, 4>>)>>
+              g1 == GradDef(in4, code4, 5, 1)
+              g2 == GradDef(in4, code4, 6, 2)
+          IN MkCase("c17", "sgd-slot", in4, <<"any", "any", "any", "any">>, code4, <<5, 6>>, 5, FALSE)
+             @@ [nograd |-> <<2, 3, 4, 6>>,
+                 post |-> <<EncIns(Ins("sgd", [k |-> d[3], nilconf |-> FALSE, inst |-> 1], <<1>>)), EncIns(Ins("bp", NoPar, <<6>>)),
+                            EncIns(Ins("sgd", [k |-> d[3], nilconf |-> FALSE, inst |-> 1], <<2>>))>>,
+                 postouts |-> <<EncT(7, SGDStep(SymT("w", d[2]), [dims |-> d[2], data |-> g1], d[3])),
+                                EncT(8, SGDStep(SymT("v", other), [dims |-> other, data |-> g2], d[3]))>>]
+     ELSE IF d[1] = "again"
      THEN (* the SAME tensor object is updated twice by one optimizer object (through two pointers), its gradient having grown in *)
           (* between by the back-propagation of a second graph over the same leaf: each Update uses the gradient current then   *)
           LET in3 == <<In("w", d[2], TRUE), In("c", d[2], FALSE), In("e", d[2], FALSE)>>
